@@ -109,6 +109,11 @@ STATEMENTS = {
     "Lw=e": "do i = 1, n\n  w(i) = e(i) + 1.0\nend do",
     "Lb=w": "do i = 1, n\n  b(i) = w(i) * e(i)\nend do",
     "w:=0": "w(:) = 0.0",
+    # a DO loop whose variable is the dummy k: statements that read k ("t=k",
+    # "ak=t", "if(k)a1", "k=k+1", "Lbk") BEFORE it read k's incoming value
+    "t=k": "t = k",
+    "Lk": "do k = 1, n\n  a(k) = a(k) + t\nend do",
+    "Lbk": "do i = 1, k\n  b(i) = 0.0\nend do",
 }
 
 _FULL = list(STATEMENTS)
@@ -117,7 +122,7 @@ _T3 = ["t=2", "u=t", "t=a2", "a1=0", "a2=a1", "b1=a2", "ak=t", "a:=0", "a1n=b",
        "inc(t)"]
 _Q12 = ["t=2", "u=t", "t=a2", "a1=0", "b1=a2", "ak=t", "a:=0", "a1n=b", "La=0",
         "Lb=a", "Lfull", "Ltmp", "Lred", "Lifc", "Lifelse", "if(t)u", "if(n)t|u",
-        "if(k)a1", "inc(t)", "fill(a)", "d:=1", "d1=e2", "Ld*=", "Lw=e", "Lb=w"]
+        "if(k)a1", "inc(t)", "fill(a)", "d:=1", "d1=e2", "Ld*=", "Lw=e", "Lb=w", "t=k", "Lk", "Lbk"]
 _Q3 =["u=t", "t=a2", "a1=0", "b1=a2", "La=0", "Ltmp", "if(n)t|u"]
 
 #: per tier: program length -> statement alphabet (quick is a subset of
